@@ -27,7 +27,7 @@ def exhaustive(c, invariants, restart=False, loaderless=False):
     if c.tier == "quick":
         runs = [(["A", "B"], 1, 5, 1)]
     else:
-        runs = [(["A", "B"], 1, 6, 1), (["A", "B"], 1, 5, -1), (["A", "B"], 2, 5, 1), (["A", "B", "C"], 1, 4, 1)]
+        runs = [(["A", "B"], 1, 6, 1), (["A", "B"], 1, 5, 2), (["A", "B"], 2, 5, 1), (["A", "B", "C"], 1, 4, 1)]
     for i, (reps, nbug, maxc, rd) in enumerate(runs):
         if restart:
             maxc -= 1
